@@ -500,6 +500,12 @@ def check_real_objects(res: Result, objs: list[tuple[str, Any]]) -> None:
     for (label, x, row), line, m in zip(metas, lines, model):
         res.evaluations += 1
         res.count("real-object:" + row["cls"])
+        # how often the hypotheses of `table_roundtrip_total` / `table_picklable` hold on real objects
+        # (informational: the theorems are conditional on them)
+        hooked_names = set(row["before"]) | set(row["after"]) | set(row["post"])
+        res.count("hyp:attrs-within-row-attrs:" + ("yes" if set(x.__dict__) <= set(row["attrs"]) else "no"))
+        res.count("hyp:hook-attrs-present:" + ("yes" if hooked_names <= set(x.__dict__) else "no"))
+        res.count("hyp:locks-within-row-locks:" + ("yes" if all(_kind_of(v) != "L" or n in row["locks"] for n, v in x.__dict__.items()) else "no"))
         try:
             copy = pickle.loads(pickle.dumps(x))
             impl = real_object_observation(x, copy, row)
